@@ -13,6 +13,7 @@ import re
 from vf import oalmodel as om
 from vf import oalsyn
 
+SUPPORTS_REPLAY = True
 SHARDS = {'quick': 16, 'thorough': 64}
 TIMEOUT = {'quick': 1500, 'thorough': 7200}
 MUST_HIT = ['Position.nodes-compared', 'Position.multi-line-expression', 'Position.newline-in-end-keyword',
